@@ -136,7 +136,7 @@ pub fn profile(check: &str) -> Profile {
             own: vec!["C18:"],
             w: [34, 0, 8, 5, 3, 8, 0, 0, 0, 0, 3, 0, 0, 0, 0, 0, 0, 0, 0, 0],
             nontrivial_any: vec!["dedup_dropped"],
-            required: vec!["dedup_dropped", "dup_within_batch", "dup_across_restart"],
+            required: vec!["dedup_dropped", "dup_within_batch", "dup_across_restart", "near_miss_id_sent"],
             cfg: dedup_cfg,
             dup_rate: (1, 2),
             ..default
@@ -325,7 +325,14 @@ pub fn gen_op(w: &World, rng: &mut Rng, prof: &Profile, seq: &mut u64) -> Op {
                     }
                     if !p.msgs.is_empty() && rng.chance(2, 3) {
                         let r = &p.msgs[rng.below(p.msgs.len() as u64) as usize];
-                        dups.push((pos, (r.id & 0xffff_ffff_ffff_ffff) as u64));
+                        if (r.id >> 64) as u64 != w.hist || (r.id as u64) >> 62 != 0 {
+                            // only ids of the regular shape are referenced (a near-miss id is not re-used)
+                            continue;
+                        }
+                        // one reference in three is a NEAR MISS (bits 62..63 of the reference, decoded by op_send): a distinct 128-bit id that
+                        // equals the earlier one in its low half, after swapping halves, or under an xor/sum fold of the halves - it must be stored
+                        let variant = if rng.chance(1, 3) { rng.range(1, 3) } else { 0 };
+                        dups.push((pos, ((r.id & 0xffff_ffff_ffff_ffff) as u64) | (variant << 62)));
                     } else if pos > 0 {
                         // same id as an earlier message of this batch
                         let other = rng.below(pos as u64) as u32;
